@@ -307,6 +307,8 @@ def _variants():
     o["U.pad:marginvec"] = lambda c: U.pad(c.img(), margin=c.axisvec([1, 0, 2], dtype=torch.int64, name="margin"), mode=c.pick(["constant", "replicate"]))
     o["U.crop:marginvec"] = lambda c: U.crop(c.img(), margin=c.axisvec([1, 0, 1], dtype=torch.int64, name="margin"))
     o["U.pad:numvec"] = lambda c: U.pad(c.img(), num=c.axisvec([1, 0, 2, 1, 0, 1], dtype=torch.int64, name="num", n=2 * c.D))
+    o["U.evaluate_cubic_bspline:kernel"] = lambda c: U.evaluate_cubic_bspline(c.flow(), stride=2, kernel=c.pick([lambda: c.bspline_kernel(2), lambda: [c.bspline_kernel(2) for _ in range(c.D)]])(), transpose=False)
+    o["U.evaluate_cubic_bspline:kernel1d"] = lambda c: U.evaluate_cubic_bspline(c.flow(), stride=1, kernel=c.pick([lambda: c.bspline_kernel(1, one_d=True), lambda: [c.bspline_kernel(1, one_d=True) for _ in range(c.D)]])(), transpose=False)
     o["U.derivatives:sigvec"] = lambda c: c.pick([U.divergence, U.jacobian_det, U.curl])(c.flow(), sigma=c.pick([0.8, 0.0]), spacing=c.axisvec([1.0, 2.0, 0.5], name="spacing"), mode=c.pick([None, "central", "bspline"]))
     o["U.derivatives:spacing"] = lambda c: c.pick([U.divergence, U.jacobian_det, U.curl, U.jacobian_matrix])(c.flow(), spacing=c.spacing_arg(), mode=c.pick([None, "central", "forward"]))
     o["U.spatial_derivatives:spacing"] = lambda c: U.spatial_derivatives(c.img(), which=c.pick(["x", ["x", "y"]]), spacing=c.spacing_arg(), mode=c.pick([None, "central", "bspline"]))
